@@ -53,6 +53,15 @@ def rule_C12(env):
                 missing.append((P, k, any_true))
             elif len(samples) < 8 and len(w) >= 3:
                 samples.append({"protocol": P, "opcode": k, "witness_choice_sequence": w})
+    # a miss within the small bound is not yet a verdict: look again, for the missing pairs only, with a deeper and wider
+    # bound (a guard that needs five or six stack items is legitimate)
+    retry = {(P, k) for P, k, any_true in missing if any_true}
+    if retry:
+        wit2, st2 = bfs.witness_search(env, max_steps=10, max_len=7, only=retry)
+        cov["states"] += st2["states"]
+        cov["transitions"] += st2["transitions"]
+        missing = [(P, k, a) for P, k, a in missing if (P, k) not in wit2]
+        wit.update(wit2)
     for P, k, any_true in missing:
         res.add("C12.b", "reach/%s/P%d" % (k, P),
                 "no choice sequence from the empty stack (within the breadth-first bound) reaches a state where %s is enabled in protocol %d%s" % (
